@@ -159,10 +159,12 @@ class Fixtures:
         for k, b in self.data.items():
             ops.append({"op": "blob", "digest": "sha256:" + sha(b), "data": b.hex()})
             ops.append({"op": "create", "name": "probe-" + k, "files": {"f.gguf": "sha256:" + sha(b)}})
-        obs, err = ctx.run_jsonl(binp, [{"ops": ops, "noapi": True}])
+        obs, err = ctx.run_jsonl(binp, [{"ops": ops, "noapi": True, "keep": True}])
         if not obs or len(obs[0]["obs"]) != len(ops):
             raise RuntimeError("fixture probe failed: " + str(err))
         self.probe = {}
+        self.det_bytes = {}
+        pdir = obs[0]["dir"]
         for i, k in enumerate(self.data):
             st = obs[0]["obs"][2 * i + 1]["state"]
             man = [m for m in st["manifests"] if m["path"].split("/")[2] == "probe-" + k]
@@ -178,7 +180,12 @@ class Fixtures:
             sizes = {b["name"][7:]: b["size"] for b in st["blobs"]}
             self.probe[k] = {"mts": [MT[l["mediaType"]] for l in ls[:np_]],
                              "det": [(MT[l["mediaType"]], l["digest"][7:], sizes[l["digest"][7:]]) for l in ls[np_:]]}
+            for l in ls[np_:]:
+                self.det_bytes[(k, MT[l["mediaType"]])] = open(os.path.join(pdir, "blobs", "sha256-" + l["digest"][7:]), "rb").read()
+        import shutil
+        shutil.rmtree(pdir, ignore_errors=True)
         self.names = list(self.data)
+        self.by_sha = {sha(b): k for k, b in self.data.items()}
 
 
 # ----------------------------------------------------------------------------------------------- generator
@@ -236,6 +243,8 @@ def gen_pull(rng, fx, name, fault=None, small=False):
         bodies.append((3, rng.choice(TEMPLATES).encode()))
     if not small and rng.random() < 0.2:
         bodies.append((7, rng.choice(LICENSES).encode()))
+    if rng.random() < 0.15:
+        bodies.append((7, b""))  # an empty layer: no parts, the -partial file is renamed at once
     cfg = rng.choice(CONFIGS)
     man = {"schemaVersion": 2, "mediaType": "application/vnd.docker.distribution.manifest.v2+json",
            "config": mk_layer(8, cfg), "layers": [mk_layer(mt, b) for mt, b in bodies]}
@@ -348,6 +357,12 @@ CORPUS = [
     # create FROM a model that does not exist
     ("from-missing", lambda fx: [
         {"op": "create", "name": "x", "from": "nonexistent", "system": "You are S2."}]),
+    # removeLayer only scans the stored manifests: a LICENSE text equal to the auto-detected params JSON loses its blob when
+    # a PARAMETER override replaces the detected params layer
+    ("inflight-layer-deleted", lambda fx: [
+        {"op": "blob", "digest": "sha256:" + sha(fx.data["gt"]), "data": fx.data["gt"].hex(), "_fx": "gt"},
+        {"op": "create", "name": "x", "files": {"m.gguf": "sha256:" + sha(fx.data["gt"])}, "_fx": "gt",
+         "license": fx.det_bytes[("gt", 5)].decode(), "parameters": {"temperature": 0.5}}]),
     # pull of a name whose default host is stored with another letter case
     ("pull-default-host-case", lambda fx: [
         {"op": "blob", "digest": "sha256:" + sha(fx.data["g0"]), "data": fx.data["g0"].hex(), "_fx": "g0"},
@@ -424,7 +439,9 @@ def op_to_coq(ids, fx, op, before, after):
         has_params = False
         if "files" in op:
             d = list(op["files"].values())[0]
-            f = op["_fx"]
+            f = op.get("_fx") or fx.by_sha.get(d[7:].lower())
+            if f is None:
+                raise ValueError("create from a blob that is none of the fixtures: %r" % d)
             pr = fx.probe[f]
             parts = []
             for mt, comp in zip(pr["mts"], fx.parts[f]):
@@ -546,7 +563,8 @@ def monitor_step(op, before, o):
     for m in readable:
         for kind, d in check_complete(st, m):
             spelled = "canonical" if re.match(r"^sha256:[0-9a-f]{64}$", d) else "non-canonical"
-            out.append(({"class": "listed-incomplete", "cause": kind, "spelling": spelled},
+            own = op["op"] == "create" and fold(tuple(m["path"].split("/"))) in op_target(op)
+            out.append(({"class": "listed-incomplete", "cause": kind, "spelling": spelled, "own_create": own},
                         "model %s: layer %s is %s after %s" % (m["path"], d, kind, op["op"])))
     # no two listed names differ only by case
     seen = {}
@@ -665,7 +683,10 @@ def run(ctx):
                        "the contents the server derives itself (config JSON, merged params JSON, messages JSON, auto-detected template) are oracle "
                        "inputs of the model, read off the implementation's resulting manifest / a probe run; the monitor checks them independently",
                        "directories are not modelled; the monitor checks that start-up prune leaves no empty manifest directory"]
-    ctx.proof_stage(["Store"], "Store/Properties_C04.v", extra_targets=["Store/Corr.v"])
+    ctx.proof_stage(["Store"], "Store/Properties_C04.v", extra_targets=["Store/Corr.v"],
+                    expect_theorems=["C04_listed_complete", "C04_frame", "C04_prune_exact", "C04_case_unique", "C04_get_existing_order_free"])
+    if not ctx.quick():
+        ctx.coqchk(["V.Store.Properties_C04"])
     binp = ctx.go_build("c04")
     if not binp:
         return
@@ -760,7 +781,12 @@ MANIFEST = {
                 "state projection after every operation; the property is also monitored directly on the directory and on /api/tags, /api/show.",
         "design_ref": "DESIGN.md section 5, C04",
     },
-    "level_note": "Trusted: Coq kernel/vm_compute; the model-to-code tie is differential testing (generator-bounded); contents the server derives itself "
-                  "are oracle inputs of the model; directories are not modelled.",
+    "level_note": "The model describes /repo/server with fixes/C04-*.patch applied (four genuine defects found on the unchanged tree: digest spelling, "
+                  "create FROM a missing model, pull re-parsing the short name, getExistingName). Theorems are stated for histories whose creates meet the "
+                  "decidable guard create_check (proved to hold for every create FROM a model; false only for the contrived class recorded as known finding "
+                  "C04-create-deletes-own-layer, refuted without the guard) and whose pulls meet served_ok (honest registry; C03 covers dishonest ones). "
+                  "'Can be shown' is proved as 'has a model layer' under ops_have_model (known finding: adapter-only models). Trusted: Coq kernel/vm_compute; "
+                  "the model-to-code tie is differential testing (generator-bounded); contents the server derives itself are oracle inputs of the model; "
+                  "directories are not modelled.",
     "technique": "Coq proof (invariant by induction over the operation list and over the effect list of each operation) + model/implementation differential check",
 }
